@@ -65,6 +65,10 @@ CLAIMED = {
   "Deductive proof of totality and progress of the lexer: for every source string, next() and every scanning helper it reaches (read, peek, match, matchOneOf, matchWhile, matchWithUnderscores, matchIdentTail, nonWhiteRemaining, whitespace, lineComment, spanComment, rawString, quotedString, doesc, number, identifier, Next) never index or slice out of range (527 obligations), keep 0 <= position <= len(source), report Item.Pos = starting position, return Eof exactly when called at the end of the source and otherwise strictly advance the position - so token positions strictly increase and scanning terminates; every loop has a proved variant.",
   "Function-valued parameters (IsDigit, IsHexDigit, isIdentChar) are modelled as pure predicates that are false for 0 and each call site is obliged to pass such a function; the lexer's keyword callback and intern.String/strings.ReplaceAll are assumed effect-free. Sources are assumed shorter than 2^31 bytes (Item.Pos is int32). NOT covered: the parser (recursive descent reporting errors by panic), the 'tokens tile the source' text equality for processed tokens, Ahead/AheadSkip buffering.",
   "DESIGN.md §4 C32"),
+ "C18": (
+  "Deductive proof (64-bit bit-vector arithmetic, exact) of the allocation arithmetic of Stor: Alloc returns offset = new size - n, i.e. the window [old size', old size'+n) of the atomically advanced size counter, never straddling a chunk boundary (when the advance would straddle, extend() moves the counter to the start of the next chunk and Alloc retries), the returned slice has exactly len = cap = n and starts at chunk[offset & (chunksize-1)] of chunk offset>>shift; Data/offsetToChunk proved against those definitions incl. bounds; extend keeps previously published chunks and publishes one fresh chunk; the representation invariant (chunksize = 2^shift, chunks value is a [][]byte whose entries have chunksize bytes, size within mapped chunks) is preserved.",
+  "sync/atomic operations are modelled as sequential steps with their documented effects (assumed library contracts); each Alloc is verified as if it ran alone, so the concurrent half of the property (distinct Add results => disjoint windows) rests on the proved window post-condition plus atomicity of Uint64.Add, argued not machine-checked; the retry loop is unrolled 3 times with an unwinding obligation under a sequential schedule. storage.Get is an assumed interface contract (fresh chunk of the configured size). Bounds assumed: shift < 40, chunk count < 999999. Memory-mapped files and FlushTo/Close not covered.",
+  "DESIGN.md §4 C18"),
 }
 
 NA = {
